@@ -146,3 +146,82 @@ def run_units():
                            cases=[{'$n': 3, '$alg': SHA256, '$algs': ['curve25519-sha256', 'diffie-hellman-group14-sha256'], '$banner': 'openssh'}],
                            ensures=[X("P == [] and REC == [] and len(E) == g_n")]), harness=None))
     return U
+
+
+# ---------------------------------------------------------------------------------------------------- _send_init
+# justifies the contract assumed above for GEXTest._send_init, and gives C19 its per-probe footprint: one reconnect, at
+# most one group-exchange request (sent on an open connection), socket closed on every exit, no exception escapes.
+def _raise(name):
+    from pyvc.interp import Raise
+    from pyvc.values import ExcVal
+    raise Raise(ExcVal(name, ()))
+
+
+def m_reconnect(ip, st):
+    st.ghost['reconnects'] = st.ghost['reconnects'] + 1
+    if ip.choose(st, 2) == 1:
+        st.ghost['connected'] = fresh('conn_after_failed_reconnect', 'bool')
+        return False
+    st.ghost['connected'] = True
+    return True
+
+
+def m_send_init_gex(ip, st, recv, args, kwargs):
+    st.ghost['dh'] = st.ghost['dh'] + 1
+    st.ghost['dh_on_open'] = st.ghost['dh_on_open'] and (st.ghost['connected'] is True)
+    st.ghost['asked'] = (args[1], args[2], args[3])
+    if ip.choose(st, 2) == 1:
+        _raise('KexDHException')
+    return None
+
+
+def m_recv_reply2(ip, st, recv, args, kwargs):
+    if ip.choose(st, 2) == 1:
+        _raise('KexDHException')
+    return fresh('reply', ('opt', 'bytes'))
+
+
+def m_get_size(ip, st, recv, args, kwargs):
+    return st.ghost['m']
+
+
+def m_close2(ip, st, recv, args, kwargs):
+    st.ghost['connected'] = False
+    return None
+
+
+def setup_send_init(ip, st, fr, case):
+    m = fresh('m', 'int')
+    st.assume(m.t >= 1)                 # len(bin(p)) - 2 of an integer p >= 0 (get_dh_modulus_size)
+    st.ghost.update({'reconnects': 0, 'dh': 0, 'dh_on_open': True, 'connected': fresh('connected0', 'bool'), 'm': m, 'asked': None})
+    fr['out'] = st.new_obj('<out>', {})
+    fr['s'] = st.new_obj('<sock>', {})
+    fr['kex_group'] = st.new_obj('<kexgroup>', {})
+    fr['kex'] = st.new_obj('<kex>', {})
+    fr['gex_alg'] = SHA256
+    for k in ('min_bits', 'pref_bits', 'max_bits'):
+        fr[k] = fresh(k, 'int')
+        st.assume(fr[k].t >= 0)
+    fr['g_m'] = m
+    mm = ip.method_models
+    for name in ('d', 'v', 'fail', 'warn', 'info'):
+        mm[('<out>', name)] = m_noop
+    mm[('<sock>', 'close')] = m_close2
+    mm[('<kexgroup>', 'send_init_gex')] = m_send_init_gex
+    mm[('<kexgroup>', 'recv_reply')] = m_recv_reply2
+    mm[('<kexgroup>', 'get_dh_modulus_size')] = m_get_size
+    return {}
+
+
+def send_init_stubs():
+    return [Contract('GEXTest.reconnect', mode='contract', result=m_reconnect, modifies=[], ensures=[],
+                     note='returns True with an open connection, or False; proved separately to open at most one connection')]
+
+
+def send_init_units():
+    return [Unit(Contract('GEXTest._send_init', setup=setup_send_init, raises={},
+                          ensures=["result[0] == -1 or (result[0] == g_m and result[0] >= 1)",
+                                   "implies(result[1], result[0] == -1)",
+                                   "ghost('reconnects') == 1 and ghost('dh') <= 1 and ghost('dh_on_open')",
+                                   "implies(ghost('dh') == 1, ghost('asked') == (min_bits, pref_bits, max_bits))",
+                                   "ghost('connected') == False"]), harness=None)]
